@@ -211,9 +211,12 @@ def forest_out(sched):
     return conv(L.abstract(sched))
 
 
-def run_history_real(info, dm, steps=None, rng=None, nsteps=0, bias=0.0, gen=True, complete=False, invoke=0):
+def run_history_real(info, dm, steps=None, rng=None, nsteps=0, bias=0.0, gen=True, complete=False, invoke=0, share=False):
     """Run a history (given, or drawn step by step from rng) on a fresh real invoke.
-    Returns dict(init, steps, results, final, unsafe, gen, ...)."""
+    Returns dict(init, steps, results, final, unsafe, gen, ...).  With `share` the history is run the way a script runs
+    it: one options dictionary OBJECT per distinct option content, reused by every step with those options
+    (L.OptionsPool); the model still sees what the caller wrote into each dictionary."""
+    pool = L.OptionsPool() if share else None
     psy = L.make_psy(info, dm)
     sched = psy.invokes.invoke_list[invoke].schedule
     init = forest_in_sx(sched)
@@ -223,7 +226,7 @@ def run_history_real(info, dm, steps=None, rng=None, nsteps=0, bias=0.0, gen=Tru
     while (todo if todo is not None else k < nsteps):
         st = todo.pop(0) if todo is not None else random_step(rng, sched, bias)
         k += 1
-        res, msg = L.apply_step(sched, st)
+        res, msg = L.apply_step(sched, st, pool)
         if msg and msg.startswith("CRASH"):
             # PSyclone raised something other than TransformationError (e.g. GenerationError from the generic dependence
             # analysis on a coloured inter-grid kernel, or while formatting a refusal message).  Nothing was accepted, the
@@ -243,7 +246,7 @@ def run_history_real(info, dm, steps=None, rng=None, nsteps=0, bias=0.0, gen=Tru
             st = completion_step(sched)
             if st is None:
                 break
-            res, msg = L.apply_step(sched, st)
+            res, msg = L.apply_step(sched, st, pool)
             if msg and msg.startswith("CRASH"):
                 out["crashes"].append([st, msg])
                 break
@@ -252,6 +255,7 @@ def run_history_real(info, dm, steps=None, rng=None, nsteps=0, bias=0.0, gen=Tru
             out["messages"].append(msg)
             if res != "ok":
                 break
+    out["options_mutated"] = list(pool.mutations) if pool is not None else []
     out["final"] = forest_out(sched)
     out["unsafe_final"] = L.unsafe_reason(sched)
     out["colours_in_omp"] = colours_in_omp(sched)
@@ -315,7 +319,11 @@ def judge(chk, case, real, mo, dist):
     if m is not None and agreed and gen_ok and m[1] == 0:
         agreed = False   # model says generation must refuse, real generation succeeded
     nontrivial = sum(real["results"]) >= 1
-    chk.case({"init": real["init"], "steps": real["steps"], "dm": case["dm"]}, nontrivial=nontrivial, agreed=agreed)
+    share = bool(case.get("share"))
+    chk.case({"init": real["init"], "steps": real["steps"], "dm": case["dm"], "share": share}, nontrivial=nontrivial,
+             agreed=agreed)
+    dist["shared_options_histories"] += 1 if share else 0
+    dist["caller_options_modified"] += len(real["options_mutated"])
     dist["accepted_steps"] += sum(real["results"])
     dist["refused_steps"] += len(real["results"]) - sum(real["results"])
     dist["gen_ok" if gen_ok else "gen_fail"] += 1
@@ -332,18 +340,23 @@ def judge(chk, case, real, mo, dist):
         bad = real["colours_in_omp"]
     src = case_src(case)
     if bad:
-        return dict(src, kind="failing-input", invoke=case.get("invoke", 0), dm=case["dm"], steps=real["steps"],
+        return dict(src, kind="failing-input", invoke=case.get("invoke", 0), dm=case["dm"], steps=real["steps"], share=share,
+                    options_modified_by_apply=real["options_mutated"],
                     observed="all steps with result 1 accepted %s, code generated; %s" % (real["results"], bad),
                     expected="the parallelisation of the uncoloured loop is refused (or generation refuses)",
                     schedule=real["final"], da_assumption=real["da_assumption"],
                     model_agrees=agreed, model_says_unsafe=(m is not None and m[2] == 0), results=real["results"])
-    if not agreed or real["da_assumption"]:
+    if not agreed or real["da_assumption"] or real["options_mutated"]:
         what = "real transformations differ from C23.runSkip" if not agreed else \
-            "assumption on the generic dependence analysis broken: " + "; ".join(real["da_assumption"][:2])
+            ("assumption on the generic dependence analysis broken: " + "; ".join(real["da_assumption"][:2])
+             if real["da_assumption"] else
+             "frame condition broken (the model's steps depend only on the options the caller wrote): "
+             + "; ".join(real["options_mutated"][:2]))
         chk.correspondence_broken(what, dict(src, init=real["init"], steps=real["steps"], dm=case["dm"],
-                                             invoke=case.get("invoke", 0)),
+                                             invoke=case.get("invoke", 0), share=share),
                                   mo, {"results": real["results"], "final": real["final"], "gen": real["gen"],
-                                       "messages": real["messages"], "da_assumption": real["da_assumption"]})
+                                       "messages": real["messages"], "da_assumption": real["da_assumption"],
+                                       "options_mutated": real["options_mutated"]})
     return None
 
 
@@ -370,6 +383,37 @@ def sweep_steps(info, dm, invoke, name, opts, coloured):
                     steps.append(st)
     nodes = L.statement_nodes(sched)
     return steps + [[name, [i], opts] for i, n in reversed(list(enumerate(nodes))) if isinstance(n, Loop)]
+
+
+SHARED_OPTS = [{"reprod": True}, {"reprod": False}]
+
+
+def shared_pair_steps(info, dm, invoke, name1, name2, opts, parity):
+    """Systematic two-transformation script with ONE shared options dictionary: the colourable loops over cells at
+    positions of the given parity are coloured; `name1` is applied (with the shared dictionary) to every loop of the
+    coloured nests, then `name2` (SAME dictionary object, see L.OptionsPool) to every loop that is not yet below a
+    worksharing directive; always last loop first, so that wrapping a node does not shift the indices still to come
+    (the indices of the second phase are read off the live schedule after the first phase)."""
+    from psyclone.psyir.nodes import Loop
+    psy = L.make_psy(info, dm)
+    sched = psy.invokes.invoke_list[invoke].schedule
+    pool = L.OptionsPool()
+    steps = []
+    nodes = L.statement_nodes(sched)
+    cells = [i for i, n in enumerate(nodes) if isinstance(n, Loop) and n.loop_type == ""]
+    for i in reversed(cells[parity::2]):
+        st = ["colour", [i], None]
+        if L.apply_step(sched, st)[0] == "ok":
+            steps.append(st)
+    nodes = L.statement_nodes(sched)
+    first = [[name1, [i], dict(opts)] for i, n in reversed(list(enumerate(nodes)))
+             if isinstance(n, Loop) and n.loop_type in ("colour", "colours")]
+    for st in first:
+        L.apply_step(sched, st, pool)
+    nodes = L.statement_nodes(sched)
+    second = [[name2, [i], dict(opts)] for i, n in reversed(list(enumerate(nodes)))
+              if isinstance(n, Loop) and n.loop_type not in ("colour", "colours") and not L.is_parallel_loop(n)]
+    return steps + first + second
 
 
 def n_invokes_of(info, dm=False):
@@ -417,7 +461,8 @@ def run(chk):
     n_bundled = 60 if thorough else 14
     per_invoke = 400 if thorough else 30
     dist = {"accepted_steps": 0, "refused_steps": 0, "gen_ok": 0, "gen_fail": 0, "crash_instead_of_refusal": 0,
-            "da_assumption_broken": 0, "failing_inputs_in_known_finding_class": 0}
+            "da_assumption_broken": 0, "failing_inputs_in_known_finding_class": 0, "shared_options_histories": 0,
+            "caller_options_modified": 0}
     found = None
     findings = common.known_findings("C23")
     with L.Workdir() as wd:
@@ -460,8 +505,9 @@ def run(chk):
         for ci, c in enumerate(corpus):
             src = case_src(c)
             info = L.parse_source(wd.path, src, f"c{ci}")
-            cases.append(dict(src, dm=c["dm"], invoke=c.get("invoke", 0)))
-            reals.append(run_history_real(info, c["dm"], steps=c["steps"], invoke=c.get("invoke", 0), complete=True))
+            cases.append(dict(src, dm=c["dm"], invoke=c.get("invoke", 0), share=bool(c.get("share"))))
+            reals.append(run_history_real(info, c["dm"], steps=c["steps"], invoke=c.get("invoke", 0), complete=True,
+                                          share=bool(c.get("share"))))
         # ---- systematic sweep ---------------------------------------------------------
         n_sweep = 0
         for src, info in sources:
@@ -473,15 +519,33 @@ def run(chk):
                             cases.append(dict(src, dm=dm, invoke=inv))
                             reals.append(run_history_real(info, dm, steps=steps, invoke=inv, complete=True))
                             n_sweep += 1
+        # ---- systematic scripts with a shared options dictionary -----------------------
+        n_shared = 0
+        n_fixed = len(FIXED_INVOKES)
+        for si, (src, info) in enumerate(sources):
+            if not thorough and si >= n_fixed + n_synth:
+                break                                     # quick tier: synthesised invokes only
+            for inv in range(min(n_invokes_of(info), 1 if not thorough else 4)):
+                for dm in ((False, True) if thorough else (bool(si % 2),)):
+                    for name1 in L.PAR_LOOP_TRANS:
+                        for name2 in L.PAR_LOOP_TRANS:
+                            for oi, opts in enumerate(SHARED_OPTS if thorough else SHARED_OPTS[:1]):
+                                for parity in ((0, 1) if thorough else (1,)):
+                                    steps = shared_pair_steps(info, dm, inv, name1, name2, opts, parity)
+                                    cases.append(dict(src, dm=dm, invoke=inv, share=True))
+                                    reals.append(run_history_real(info, dm, steps=steps, invoke=inv, complete=True,
+                                                                  share=True))
+                                    n_shared += 1
         # ---- random histories ---------------------------------------------------------
         for src, info in sources:
             ninv = n_invokes_of(info)
             for _ in range(per_invoke):
                 dm = rng.random() < 0.5
                 inv = rng.randrange(ninv)
-                cases.append(dict(src, dm=dm, invoke=inv))
+                share = rng.random() < 0.4
+                cases.append(dict(src, dm=dm, invoke=inv, share=share))
                 reals.append(run_history_real(info, dm, rng=rng, nsteps=rng.randint(1, 6), bias=rng.choice([0.0, 0.6]),
-                                              complete=rng.random() < 0.6, invoke=inv))
+                                              complete=rng.random() < 0.6, invoke=inv, share=share))
         model = driver("C23", [model_line(r["init"], r["steps"]) for r in reals]) if proof_ok or _driver_exists() else None
         for idx, (case, real) in enumerate(zip(cases, reals)):
             mo = model[idx] if model is not None else "no-model"
@@ -494,6 +558,7 @@ def run(chk):
     chk.cov["distribution"] = dist
     chk.cov["invokes"] = len(sources)
     chk.cov["sweep_histories"] = n_sweep
+    chk.cov["shared_options_script_histories"] = n_shared
     chk.cov["phase_s"] = {"lean_build_and_audit_incl_lock_wait": round(t_lean, 1), "cases": round(time.time() - t0 - t_lean, 1)}
     if found:
         chk.violation(found)
@@ -535,15 +600,16 @@ def minimise(wd, payload):
     steps = payload["steps"]
     src = case_src(payload)
     inv = payload.get("invoke", 0)
+    share = bool(payload.get("share"))
     info = L.parse_source(wd.path, src, "min")
 
     def fails(sts):
         try:
-            r = run_history_real(info, payload["dm"], steps=sts, invoke=inv)
+            r = run_history_real(info, payload["dm"], steps=sts, invoke=inv, share=share)
         except Exception:
             return False
         return r["gen"] == "ok" and bool(r["unsafe_final"] or r["colours_in_omp"])
-    r = run_history_real(info, payload["dm"], steps=steps, invoke=inv)
+    r = run_history_real(info, payload["dm"], steps=steps, invoke=inv, share=share)
     acc = [s for s, ok in zip(steps, r["results"]) if ok]
     if fails(acc):
         steps = acc
@@ -565,8 +631,9 @@ def minimise(wd, payload):
         used = sorted({c[1] for c in payload["calls"] if c[0] == "kern"})
         out["kernels"] = [payload["kernels"][i] for i in used]
         out["calls"] = [["kern", used.index(c[1])] if c[0] == "kern" else list(c) for c in payload["calls"]]
-    r = run_history_real(info, payload["dm"], steps=steps, invoke=inv)
+    r = run_history_real(info, payload["dm"], steps=steps, invoke=inv, share=share)
     out["schedule"] = r["final"]
+    out["options_modified_by_apply"] = r["options_mutated"]
     out["observed"] = "steps accepted %s, code generated; %s" % (r["results"], r["unsafe_final"] or r["colours_in_omp"])
     return out
 
@@ -583,11 +650,12 @@ def replay_broken(payload):
         c = b["case"]
         with L.Workdir() as wd:
             info = L.parse_source(wd.path, case_src(c), "replay")
-            r = run_history_real(info, c["dm"], steps=c["steps"], invoke=c.get("invoke", 0))
+            r = run_history_real(info, c["dm"], steps=c["steps"], invoke=c.get("invoke", 0), share=bool(c.get("share")))
         mo = driver("C23", [model_line(r["init"], r["steps"])])[0]
         m = parse_sx(mo) if mo.startswith("(") else None
         agreed = m is not None and m[0] == r["results"] and m[3] == r["final"] and not (r["gen"] == "ok" and m[1] == 0)
-        agreed = agreed and not r["da_assumption"]
+        agreed = agreed and not r["da_assumption"] and not r["options_mutated"]
+        print("caller's options dictionaries:", r["options_mutated"] or "left unchanged")
         print("steps:", r["steps"], "\nreal results:", r["results"], "gen:", r["gen"], "\nreal final:", r["final"], "\nmodel:", mo,
               "\ndependence-analysis assumption:", r["da_assumption"] or "holds", "\n->", "agree" if agreed else "DISAGREE")
         still += 0 if agreed else 1
@@ -600,7 +668,8 @@ def replay(payload, quiet=False):
     L.setup_api()
     with L.Workdir() as wd:
         info = L.parse_source(wd.path, case_src(payload), "replay")
-        r = run_history_real(info, payload["dm"], steps=payload["steps"], invoke=payload.get("invoke", 0))
+        r = run_history_real(info, payload["dm"], steps=payload["steps"], invoke=payload.get("invoke", 0),
+                             share=bool(payload.get("share")))
     bad = (r["unsafe_final"] or r["colours_in_omp"]) if r["gen"] == "ok" else None
     if not quiet:
         print("source:", json.dumps(case_src(payload)), "invoke:", payload.get("invoke", 0), "dm:", payload["dm"])
@@ -608,6 +677,9 @@ def replay(payload, quiet=False):
         print("messages:", r["messages"])
         print("final schedule:", r["final"])
         print("generation:", r["gen"])
+        if payload.get("share"):
+            print("script style: one options dictionary object per distinct option content, shared by the steps;",
+                  "modified by apply():", r["options_mutated"] or "never")
         print("generic dependence analysis on the fresh schedule:", r["da_assumption"] or "answers False without raising")
         print("observed:", bad or "schedule is Safe (or generation refused)")
         print("expected: every parallel loop with an INC/READINC argument on a continuous or unknown space is a 'colour' loop; "
